@@ -18,7 +18,7 @@ func init() {
 		ID: "C04",
 		Rule: "differential monitor with distinct small-integer data (sums of products are exact in float64, so comparison is exact): MatMul over all (m,n,k) in {1,2,3}^3 x all broadcast-compatible batch-shape pairs (batch rank <= 2 exhaustive in quick, <= 3 in thorough, rank-6 operands sampled), Dot over all broadcast-compatible full-shape pairs of rank 1..4 (+ sampled 5-6), Transpose over all shapes of rank 2..6 (sizes 1..3, trailing matrices up to 5x5). " +
 			"Identity monitors on the same operands: A.I=A, I.A=A (I also given with a leading batch dimension of 1), (A.B)^T = B^T.A^T, Dot(a,b)=SumAlong_last(a*b), Transpose(Transpose(x))=x. " +
-			"Non-trivial: the result has >= 2 elements; distinct = (op, operand shapes).",
+			"Non-trivial: the result has >= 2 elements; distinct = (op, operand shapes). Later additions: matrices up to 7x7 and batch sizes up to 5; contraction / row / column sizes 31..257 (MatMul) and up to 1001 (Dot); exact power-of-two scaling (sA)(B/s) = AB for s = 2^+-300..900; operands are re-read after the identities; tensors that took part in rejected calls are used again.",
 		Assumptions: []string{"At/Shape are the observation channel", "integer data keep every partial sum exactly representable; a second pass with random reals uses relative tolerance 1e-12"},
 		FloorQuick:  20000, FloorThor: 100000,
 		Run: runC04,
